@@ -64,6 +64,14 @@ def gen_cases(ctx):
     rng = ctx.rng
     cases = [{"op": "roundtrip", "route": r, "frame": {"n": 2, "cols": [{"name": "a", "kind": "str", "vals": ["", "x"]}, {"name": "b", "kind": "float", "vals": ["inf", "nan"]}]}} for r in ROUTES]
     cases += [{"op": "roundtrip", "route": "pandas", "frame": {"n": 2, "cols": [{"name": "a", "kind": "int", "vals": [9007199254740993, 1]}, {"name": "b", "kind": "float", "vals": ["nan", 1.5]}, {"name": "c", "kind": "bool", "vals": [True, False]}]}}]
+    # long columns that START with a long run of missing values (a field introduced after the first records were
+    # logged): "at least one non-missing value, arbitrary missing positions incl. first" has no bound on the run
+    for lead, total in ((1200, 1500), (4999, 5000)):
+        for r in ("lod", "json"):
+            cases.append({"op": "roundtrip", "route": r, "frame": {"n": total, "cols": [
+                {"name": "a", "kind": "float", "vals": ["nan"] * lead + [1.5, 2.5] * ((total - lead) // 2) + [0.5] * ((total - lead) % 2)},
+                {"name": "b", "kind": "str", "vals": [""] * lead + ["x"] * (total - lead)},
+                {"name": "c", "kind": "int", "vals": list(range(total))}]}})
     n = 500 if ctx.tier == "quick" else 8000
     for _ in range(n):
         cases.append(gen_case(rng, ctx.tier))
